@@ -77,3 +77,137 @@ Example c04_nonvacuous :
   ancestors t 4 (Some 1) = [1; 0] /\
   first_some (fun a => scoped_lookup [(0, [([120], (VInt 7, false))]); (1, [([120], (VInt 8, false))])] a [120]) (ancestors t 4 (Some 1)) = Some (VInt 8).
 Proof. split; reflexivity. Qed.
+
+(* ================= the STATEFUL forcing of the lazy interpreter ================= *)
+(* The four lazy theorems above are about `force_pairs (pure_ev node_of)`: scope expressions that
+   evaluate without any effect.  Model/Lazy.v forces a cell with
+     force_scoped (S fuel) name (SVUnforced pairs) = force_pairs (scope_ev fuel) pairs [] []
+   where `scope_ev fuel scope = sv <- eval_lv fuel scope ;; lift (as_syn sv)` polls, forces thunks,
+   may re-enter other cells and may fail.  The theorems below link the two (Proofs/ScopedLink.v).
+   `scopes_run ev ps s p ns s' p'`: the scope expressions of ps evaluate one after the other, the
+   state threaded, to the nodes ns, ending in (s', p').  `resolved ps ns`: ps with every scope
+   expression replaced by the node it evaluated to; `syn_node` reads that node back. *)
+From TSG Require Import Proofs.ScopedLink.
+
+(* THE LINK, for any evaluator: if the scope expressions evaluate, the stateful loop is the pure loop
+   of the stand-in on the resolved definitions, started in the final state *)
+Theorem lazy_force_refines_force_pairs : forall ev ps s p ns s' p',
+  scopes_run ev ps s p ns s' p' ->
+  forall values dbgs,
+    force_pairs ev ps values dbgs s p = force_pairs (pure_ev syn_node) (resolved ps ns) values dbgs s' p'.
+Proof. exact force_pairs_refines. Qed.
+
+(* lazy_force_spec with the pure stand-in replaced by ANY evaluator whose result is a function
+   `node_of` of the scope expression (the state may change on the way) *)
+Theorem lazy_force_spec_stateful : forall ev node_of ps,
+  (forall q, In q ps -> forall s p, exists s' p', ev (fst (fst q)) s p = Ok (node_of (fst (fst q)), s', p')) ->
+  forall s p, exists s' p',
+    scopes_run ev ps s p (map (fun q : lvalue * lvalue * stmt_ctx => node_of (fst (fst q))) ps) s' p' /\
+    force_pairs ev ps [] [] s p =
+    match build node_of ps [] [] with
+    | inl m => Ok (m, s', p')
+    | inr (prev, dbg) => Err (EInContext (CtxStmts [prev; dbg]) EDuplicateVariable)
+    end.
+Proof. exact force_pairs_stateful_spec. Qed.
+
+(* lazy_force_spec for the interpreter's function: per node the FIRST definition, DuplicateVariable
+   with the contexts of both definitions otherwise; the final state is the one the evaluations of
+   the scope expressions lead to *)
+Theorem lazy_force_spec_interp : forall t fl call fuel name pairs s p ns s' p',
+  scopes_run (scope_ev t fl call fuel) pairs s p ns s' p' ->
+  force_scoped t fl call (S fuel) name (SVUnforced pairs) s p =
+  match build syn_node (resolved pairs ns) [] [] with
+  | inl m => Ok (m, s', p')
+  | inr (prev, dbg) => Err (EInContext (CtxStmts [prev; dbg]) EDuplicateVariable)
+  end.
+Proof. exact force_scoped_spec. Qed.
+
+(* lazy_force_ok_iff_distinct_nodes for the interpreter's function: forcing succeeds exactly when the
+   scope expressions evaluated to pairwise distinct nodes *)
+Theorem lazy_force_ok_iff_distinct_nodes_interp : forall t fl call fuel name pairs s p ns s' p',
+  scopes_run (scope_ev t fl call fuel) pairs s p ns s' p' ->
+  ((exists m, force_scoped t fl call (S fuel) name (SVUnforced pairs) s p = Ok (m, s', p')) <-> NoDup ns).
+Proof. exact force_scoped_ok_iff. Qed.
+
+(* lazy_forced_map_lookup for the interpreter's function: the forced map gives node n the value of the
+   first definition whose scope evaluated to n *)
+Theorem lazy_forced_map_lookup_interp : forall t fl call fuel name pairs s p ns s' p' m n,
+  scopes_run (scope_ev t fl call fuel) pairs s p ns s' p' ->
+  force_scoped t fl call (S fuel) name (SVUnforced pairs) s p = Ok (m, s', p') ->
+  nmap_get m n =
+  first_some (fun qk : (lvalue * lvalue * stmt_ctx) * N => if N.eqb n (snd qk) then Some (snd (fst (fst qk))) else None)
+             (combine pairs ns).
+Proof. exact force_scoped_lookup. Qed.
+
+(* the remaining outcomes of forcing.  A duplicate among the first definitions ends it (the scope
+   expressions behind it are not evaluated); the first scope expression that does not evaluate, with
+   no duplicate before it, surfaces — an error inside the contexts of that definition *)
+Theorem lazy_force_duplicate_stops_interp : forall t fl call fuel name ps1 ps2 s p ns s1 p1 prev dbg,
+  scopes_run (scope_ev t fl call fuel) ps1 s p ns s1 p1 ->
+  build syn_node (resolved ps1 ns) [] [] = inr (prev, dbg) ->
+  force_scoped t fl call (S fuel) name (SVUnforced (ps1 ++ ps2)) s p =
+  Err (EInContext (CtxStmts [prev; dbg]) EDuplicateVariable).
+Proof. exact force_scoped_dup_prefix. Qed.
+
+Theorem lazy_force_scope_failure_interp : forall t fl call fuel name ps1 sc v d ps2 s p ns s1 p1 m,
+  scopes_run (scope_ev t fl call fuel) ps1 s p ns s1 p1 ->
+  build syn_node (resolved ps1 ns) [] [] = inl m ->
+  match scope_ev t fl call fuel sc s1 p1 with
+  | Err e => force_scoped t fl call (S fuel) name (SVUnforced (ps1 ++ (sc, v, d) :: ps2)) s p =
+             Err (add_context (CtxStmts [d]) (add_context CtxOther e))
+  | Panic x => force_scoped t fl call (S fuel) name (SVUnforced (ps1 ++ (sc, v, d) :: ps2)) s p = Panic x
+  | OutOfFuel => force_scoped t fl call (S fuel) name (SVUnforced (ps1 ++ (sc, v, d) :: ps2)) s p = OutOfFuel
+  | Ok _ => True
+  end.
+Proof. exact force_scoped_scope_fails. Qed.
+
+(* THE LAZY LOOKUP RULE (eval_lv on `scope.name`; lazy_ancestor_nearest for the interpreter's
+   function): after the poll, the scope evaluates to node n; the cell of the name is marked Forcing and
+   forced to the map m; the cell becomes Forced m; the result is the evaluation of the node's own
+   entry, else — ONLY for names declared `inherit` — of the entry of the NEAREST ancestor that has one,
+   else UndefinedScopedVariable *)
+Theorem lazy_scoped_lookup_rule : forall t fl call fuel scope name s p p0 n s1 p1 cell m s2 p2,
+  poll L_eval_value s p = Ok (tt, s, p0) ->
+  scope_ev t fl call fuel scope s p0 = Ok (n, s1, p1) ->
+  alist_get name (l_scoped s1) = Some cell ->
+  force_scoped t fl call fuel name cell (with_cell s1 name SVForcing) p1 = Ok (m, s2, p2) ->
+  eval_lv t fl call (S fuel) (LScoped scope name) s p =
+  match (match nmap_get m n with
+         | Some v => Some v
+         | None => if linherited fl name then
+                     first_some (nmap_get m)
+                       (ancestors t (S (length (t_nodes t))) (match node_at t n with Some nd => tn_parent nd | None => None end))
+                   else None
+         end) with
+  | Some v => eval_lv t fl call fuel v (with_cell s2 name (SVForced m)) p2
+  | None => Err EUndefinedScopedVariable
+  end.
+Proof. exact eval_scoped_rule. Qed.
+
+(* a name under which no definition was ever collected *)
+Theorem lazy_scoped_lookup_no_definition : forall t fl call fuel scope name s p p0 n s1 p1,
+  poll L_eval_value s p = Ok (tt, s, p0) ->
+  scope_ev t fl call fuel scope s p0 = Ok (n, s1, p1) ->
+  alist_get name (l_scoped s1) = None ->
+  eval_lv t fl call (S fuel) (LScoped scope name) s p = Err EUndefinedScopedVariable.
+Proof. exact eval_scoped_no_cell. Qed.
+
+(* non-vacuity: two definitions whose scopes are literal syntax nodes, forced by the interpreter's
+   function from the initial state: each evaluation polls once, the map has both entries *)
+Example c04_stateful_nonvacuous :
+  let t := {| t_src := []; t_nodes := [] |} in
+  let d := {| sc_stmt := (1,1); sc_stanza := (0,0); sc_node := 0 |} in
+  let pairs := [(LValue (VSyn 2), LValue (VInt 1), d); (LValue (VSyn 5), LValue (VInt 2), d)] in
+  exists s' p',
+    scopes_run (scope_ev t {| f_globals := []; f_inherited := []; f_shorthands := []; f_stanzas := [] |}
+                  (fun _ _ _ => Err EUndefinedFunction) 1) pairs (linit []) (polls0 None) [2; 5] s' p' /\
+    p_count p' = 2 /\
+    force_scoped t {| f_globals := []; f_inherited := []; f_shorthands := []; f_stanzas := [] |}
+      (fun _ _ _ => Err EUndefinedFunction) 2 [120] (SVUnforced pairs) (linit []) (polls0 None) =
+    Ok ([(2, LValue (VInt 1)); (5, LValue (VInt 2))], s', p').
+Proof.
+  cbv zeta. eexists. eexists. split; [|split].
+  - econstructor; [vm_compute; reflexivity|]. econstructor; [vm_compute; reflexivity|]. constructor.
+  - reflexivity.
+  - vm_compute. reflexivity.
+Qed.
